@@ -8,7 +8,7 @@ TraceLog == ndJsonDeserialize(IOEnv.VERIF_TRACE)
 AbsSvc(n) == IF n = "svc-a" THEN "A" ELSE IF n = "svc-b" THEN "B" ELSE n
 E == TraceLog[l]
 Ev(e) == l <= Len(TraceLog) /\ TraceLog[l].ev = e /\ l' = l + 1
-H == UNCHANGED <<svcSnap, activeSnap>>
+H == TRUE
 R == UNCHANGED rvars
 
 TInit == TLCSet(1, 0) /\ FInit /\ l = 1
@@ -18,16 +18,15 @@ TReg     == /\ Ev("Reg") /\ RegChange /\ H /\ R
 THReq    == Ev("HReq") /\ WsIssue /\ wsLast = E.idx /\ H /\ R
 THResp   == Ev("HResp") /\ WsHealth /\ wsLast' = E.idx /\ H /\ R
 TCResp   == Ev("CResp") /\ WsCatalog(AbsSvc(E.svc)) /\ H /\ R
+TCFail   == Ev("CFail") /\ WsCatalogFail(AbsSvc(E.svc)) /\ R
 TKReq    == Ev("KReq") /\ WkIssue /\ wkLast = E.idx /\ H /\ R
 TKResp   == Ev("KResp") /\ WkAnswer /\ wkLast' = E.idx /\ wkVal' = E.val /\ H /\ R
 TReqInv  == Ev("ReqInv") /\ ReqInv(E.c, E.p)
 TReqRet  == Ev("ReqRet") /\ ReqRet(E.c, E.res)
 Silent   == /\ l' = l
-            /\ \/ (BeRecvMan \/ BeSame \/ BeReject) /\ H /\ R
-               \/ BeRecvSvc /\ svcSnap' = wsSnap /\ UNCHANGED activeSnap /\ R
-               \/ BeInstall /\ activeSnap' = svcSnap /\ UNCHANGED svcSnap /\ R
+            /\ \/ (BeRecvMan \/ BeSame \/ BeReject \/ BeRecvSvc \/ BeInstall) /\ R
                \/ \E c \in Clients : ReqLookup(c)
-TNext == TReg \/ THReq \/ THResp \/ TCResp \/ TKReq \/ TKResp \/ TReqInv \/ TReqRet \/ Silent
+TNext == TReg \/ THReq \/ THResp \/ TCResp \/ TCFail \/ TKReq \/ TKResp \/ TReqInv \/ TReqRet \/ Silent
 TSpec == TInit /\ [][TNext]_<<fvars, l>>
 HW == TLCSet(1, IF TLCGet(1) < l THEN l ELSE TLCGet(1))
 Accepted == TLCGet(1) = Len(TraceLog) + 1
